@@ -52,6 +52,99 @@ def _weak_randomness(tree, rebound):
     return hits
 
 
+_MISSING = object()
+
+
+def _param_default(fi, name):
+    a = fi.node.args
+    pos = list(a.posonlyargs) + list(a.args)
+    dfl = [_MISSING] * (len(pos) - len(a.defaults)) + list(a.defaults)
+    for x, d in zip(pos, dfl):
+        if x.arg == name:
+            return d
+    for x, d in zip(a.kwonlyargs, a.kw_defaults):
+        if x.arg == name:
+            return _MISSING if d is None else d
+    return _MISSING
+
+
+def _passed(fi, call, name):
+    """The expression a call hands to parameter `name` of fi: ast node, None (not passed) or 'unknown' (star args)."""
+    if any(isinstance(a, ast.Starred) for a in call.args) or any(k.arg is None for k in call.keywords):
+        return 'unknown'
+    for k in call.keywords:
+        if k.arg == name:
+            return k.value
+    params = [q for q in fi.params]
+    off = 1 if fi.cls is not None and fi.kind in ('method', 'classmethod', 'property') and isinstance(call.func, ast.Attribute) else 0
+    if name in params:
+        i = params.index(name) - off
+        if 0 <= i < len(call.args):
+            return call.args[i]
+    return None
+
+
+def _local_receiver(p, ob, fi, name, where):
+    from ..evalr import Frame
+    work, seen = [(fi, name)], set()
+    while work:
+        f, prm = work.pop()
+        if (f.qual, prm) in seen:
+            continue
+        seen.add((f.qual, prm))
+        d = _param_default(f, prm)
+        key = f.qual[len(PKG) + 1:]
+        if d is _MISSING:
+            ob.require(False, '%s draws entropy from its parameter `%s`, which has no default: there is no built-in OS-CSPRNG route' % (key, prm), f.where)
+            continue
+        # default route: evaluate with the parameter left out, every draw in the result must be on the CSPRNG
+        e = Evaluator(p, 'ecdsa')
+        args, sig = [], f.node.args
+        npos = len(sig.posonlyargs) + len(sig.args)
+        required = (list(sig.posonlyargs) + list(sig.args))[:npos - len(sig.defaults)]
+        for x in required:
+            args.append(T.clsref(f.cls.qual) if f.kind == 'classmethod' and x is required[0] and f.cls is not None
+                        else S(x.arg, type='int' if 'bits' in x.arg or 'len' in x.arg else None))
+        if f is fi:
+            try:
+                v, _ = e.call_function(key, args)
+            except AnalysisError as ex:
+                ob.undecided('default route of %s could not be evaluated: %s' % (key, ex), f.where)
+                continue
+            dr = [x for x in T.walk(v) if T.is_op(x) and x[1] in ('RANDBITS', 'RANDBYTES', 'RANDVAL')]
+            if not dr:
+                ob.undecided('no draw is visible in the result of %s with `%s` left at its default' % (key, prm), f.where)
+            for x in dr:
+                ob.require(T.is_op(x[2], 'CSPRNG'), 'with `%s` left at its default, %s draws from something that is not the OS CSPRNG' % (prm, key),
+                           where, expected='random.SystemRandom() / secrets / os.urandom', found=T.show(x[2]))
+            ob.evaluations += 1
+        for cs in p.callers_of(f):
+            a = _passed(f, cs.node, prm)
+            if a is None or (isinstance(a, ast.Constant) and a.value is None):
+                continue
+            if a == 'unknown':
+                ob.undecided('call with star arguments: what reaches `%s` of %s is not visible' % (prm, key), cs.where)
+                continue
+            if isinstance(a, ast.Name) and cs.caller is not None and a.id in cs.caller.params:
+                stores = [m for m in ast.walk(cs.caller.node) if isinstance(m, ast.Name) and m.id == a.id and isinstance(m.ctx, ast.Store)]
+                if not stores:
+                    work.append((cs.caller, a.id))
+                    continue
+            fr = Frame(cs.caller, {}, Facts(), cs.module, cs.caller.cls if cs.caller else None, 0)
+            try:
+                val = Evaluator(p, 'ecdsa').expr(a, fr)
+            except Exception:
+                val = T.opaque('unevaluated')
+            if T.is_op(val, 'CSPRNG'):
+                continue
+            if T.is_op(val, 'PRNG'):
+                ob.require(False, 'a caller inside the package hands the seedable generator %s to `%s` of %s' % (ast.unparse(a), prm, key), cs.where,
+                           found=T.show(val))
+            else:
+                ob.undecided('a caller inside the package hands `%s` to `%s` of %s; what generator that is could not be decided'
+                             % (ast.unparse(a), prm, key), cs.where)
+
+
 def run(ctx):
     p = ctx.p
     ctx.explanation = (
@@ -84,6 +177,13 @@ def run(ctx):
                 v = Evaluator(p, 'ecdsa').module_const(m.name.split('.')[-1], name)
             elif name in m.imports:
                 v = X.ext_value(m.imports[name][1])
+            elif name in fi.params and '.' not in r:
+                # a generator handed in by the caller, with a default: the default route must be the OS CSPRNG and no
+                # caller inside the package may hand in anything else (C08.AMOUNT decides the public routes semantically)
+                _local_receiver(p, ob, fi, name, where)
+                ob.require(n.func.attr in ('getrandbits', 'randbits', 'token_bytes', 'urandom', 'randbytes'),
+                           'entropy is drawn with %s (not a bit/byte draw of stated size)' % n.func.attr, where)
+                continue
             else:
                 v = T.opaque('receiver %s is not a module-level name' % r)
             ok = T.is_op(v, 'CSPRNG') or (T.tag(v) == 'ext' and v[1] in ('secrets', 'os'))
